@@ -112,7 +112,7 @@ func genSub(rng *simrt.Rand, u *gen.Universe, prop string) Sub {
 	switch prop {
 	case "C05":
 		s.Mode = []string{"once", "poll"}[rng.Intn(2)]
-	case "C04", "C08":
+	case "C04", "C08", "C03":
 		s.Mode = "stream"
 	default:
 		s.Mode = []string{"stream", "stream", "once", "poll"}[rng.Intn(4)]
@@ -233,7 +233,7 @@ func (H) Generate(rng *simrt.Rand, prop, tier string) (any, simrt.Config) {
 			sc.Subs[i].User = []string{"alice", "bob", "alice", "bob", "mallory"}[rng.Intn(5)]
 		}
 	}
-	if prop == "C08" || rng.Chance(0.2) {
+	if prop == "C08" || prop == "C03" || rng.Chance(0.2) {
 		sc.TimeoutNs = int64(time.Duration(1+rng.Intn(90)) * time.Second)
 		sc.Window = []int{0, 1, 2}[rng.Intn(3)]
 		for i := range sc.Subs {
@@ -271,6 +271,23 @@ func (H) Generate(rng *simrt.Rand, prop, tier string) (any, simrt.Config) {
 		sc.Subs[0].Target = "*"
 		if sc.Subs[0].Mode == "poll" && sc.Subs[0].Polls == 0 {
 			sc.Subs[0].Polls = 1 + rng.Intn(3)
+		}
+	}
+	// C12: a named target that is removed and re-added over and over while
+	// requests for it arrive (lookups racing the removal).
+	if prop == "C12" && rng.Chance(0.3) {
+		var ops []cacheh.Op
+		for i := 2 + rng.Intn(6); i > 0; i-- {
+			ops = append(ops, cacheh.Op{K: "remove"}, cacheh.Op{K: "add"})
+		}
+		sc.Streams[0] = append(sc.Streams[0], ops...)
+		for i := range sc.Subs {
+			if sc.Subs[i].Hostile == "" {
+				sc.Subs[i].Target = sc.Targets[0]
+				if sc.Subs[i].Mode == "poll" {
+					sc.Subs[i].Polls = 2 + rng.Intn(3)
+				}
+			}
 		}
 	}
 	// Twin subscribers: the same query registered by two clients (the same
@@ -450,8 +467,9 @@ type wrec struct {
 	noti     *pb.Notification
 	class    string
 	inv, ret int64
-	startNs  int64 // virtual time when the operation was invoked
-	endNs    int64 // virtual time when the operation returned
+	before   []byte // the caller's notification as it was handed to GnmiUpdate
+	startNs  int64  // virtual time when the operation was invoked
+	endNs    int64  // virtual time when the operation returned
 }
 
 type feedRec struct {
@@ -609,6 +627,7 @@ func (w *world) runStream(x *common.Exec, i int, ops []cacheh.Op, into *[]wrec) 
 		switch op.K {
 		case "upd":
 			r.noti = b.Build(op.N)
+			r.before, _ = proto.MarshalOptions{Deterministic: true}.Marshal(r.noti)
 			err := w.c.GnmiUpdate(r.noti)
 			switch {
 			case err == nil:
@@ -1060,6 +1079,24 @@ func (w *world) countFaults(x *common.Exec) {
 
 func (w *world) judge(x *common.Exec, final map[string]map[string]string, finalTS map[string]map[string]int64) {
 	w.countFaults(x)
+	// The caller's notification is left unmodified (C03) - also after the
+	// cache handed it to the Subscribe server and slow subscribers had their
+	// coalesced copies of it delivered.
+	for _, ws := range w.w {
+		for _, r := range ws {
+			if r.noti == nil || r.before == nil {
+				continue
+			}
+			x.Oblige(1)
+			if now, _ := (proto.MarshalOptions{Deterministic: true}).Marshal(r.noti); string(now) != string(r.before) {
+				was := &pb.Notification{}
+				proto.Unmarshal(r.before, was)
+				x.Violate("C03/input-mutated-after-delivery", "the notification a target's stream handed to GnmiUpdate was changed afterwards (the cache stores the caller's object; something downstream wrote into it)\nwas %s\nnow %s", compact(was), compact(r.noti))
+				x.Violate("C08/cached-notification-mutated", "a notification stored in the cache (shared by every subscriber) was modified while it was delivered\nwas %s\nnow %s", compact(was), compact(r.noti))
+				return
+			}
+		}
+	}
 	sc := w.sc
 	w.feed = nil
 	for _, f := range w.feeds {
